@@ -125,7 +125,15 @@ func run(x *vf.Ctx, f factory, seed []byte, seq []opk, pk string) {
 				dst[i] = 0xEE
 			}
 			xs := append([]byte{}, src...)
-			X.XORKeyStream(dst[:o.n], xs)
+			switch si % 3 {
+			case 0: // destination and source of the same length
+				X.XORKeyStream(dst[:o.n], xs)
+			case 1: // a destination longer than the source (allowed by cipher.Stream): only len(src) bytes are written and consumed
+				X.XORKeyStream(dst, xs)
+			default: // in place
+				copy(dst, xs)
+				X.XORKeyStream(dst[:o.n], dst[:o.n])
+			}
 			if !bytes.Equal(xs, src) {
 				x.Failf(pk+"/XORKeyStream-clobbers-src", "%s: %s: XORKeyStream changed its source buffer", f.name, desc)
 				return
